@@ -295,6 +295,45 @@ var bitLemmas = []bitLemma{
 			})
 			return "(=> (and " + bitD("w", k) + " " + low + ") (= (bvand w (bvneg w)) " + kc(k) + "))"
 		}},
+	{Name: "popcnt-clear-lowest", PerK: true,
+		Axiom: "(forall ((w (_ BitVec 64))) (! (=> (not (= w " + zero + ")) (= (popcnt (bvand w (bvsub w " + one + "))) (- (popcnt w) 1))) :pattern ((popcnt (bvand w (bvsub w " + one + "))))))",
+		Cuts: func(k int) []string {
+			low := forallJ(func(j int) string {
+				if j < k {
+					return "(not " + bitD("w", j) + ")"
+				}
+				return "true"
+			})
+			x := "(bvand w (bvsub w " + one + "))"
+			var cuts []string
+			for b := 0; b < 8; b++ {
+				var sx, sw strings.Builder
+				sx.WriteString("(+ 0")
+				sw.WriteString("(+ 0")
+				for j := 8 * b; j < 8*b+8; j++ {
+					fmt.Fprintf(&sx, " (ite %s 1 0)", bitD(x, j))
+					fmt.Fprintf(&sw, " (ite %s 1 0)", bitD("w", j))
+				}
+				sx.WriteString(")")
+				sw.WriteString(")")
+				d := 0
+				if k/8 == b {
+					d = 1
+				}
+				cuts = append(cuts, fmt.Sprintf("(=> (and %s %s) (= %s (- %s %d)))", bitD("w", k), low, sx.String(), sw.String(), d))
+			}
+			return cuts
+		},
+		Proof: func(k int) string {
+			// case: k is the lowest set bit of w (some k is, since w != 0)
+			low := forallJ(func(j int) string {
+				if j < k {
+					return "(not " + bitD("w", j) + ")"
+				}
+				return "true"
+			})
+			return "(=> (and " + bitD("w", k) + " " + low + ") (= " + popD("(bvand w (bvsub w "+one+"))") + " (- " + popD("w") + " 1)))"
+		}},
 	{Name: "popcnt-low-mask", PerK: true,
 		Axiom: "(forall ((k Int)) (! (=> " + kRange + " (= (popcnt (bvsub " + shl1("k") + " " + one + ")) k)) :pattern ((popcnt (bvsub " + shl1("k") + " " + one + ")))))",
 		Proof: func(k int) string {
